@@ -14,6 +14,7 @@ import (
 	"runtime/debug"
 	"sort"
 	"strings"
+	"sync/atomic"
 	"time"
 
 	"github.com/formancehq/go-libs/v5/pkg/types/metadata"
@@ -51,7 +52,9 @@ import (
 // signature so that it can be triaged (known finding) or switched off here.
 const c27MachinePostingsRefutes = false
 
-const c27WatchdogSeconds = 20
+const c27WatchdogSeconds = 60
+
+var c27Abandoned int64
 
 // c27MaxCommentNesting bounds the depth of nested /* */ comments in generated
 // inputs. Measured on the unchanged tree: depth 64 -> 0.7 s, 128 -> 1.7 s,
@@ -83,7 +86,7 @@ func init() {
 			"explored envelope: inputs of at most 16 KiB, nesting depth of sources/destinations/monetaries at most ~3000, at most 24 comment openers `/*` per input, and error lists rendered with Error() only up to 30 errors: beyond these the unchanged tree needs seconds to minutes per input (nested or unbalanced comments: 1 KiB -> 5 s, 2.3 KiB -> 42 s, 64 KiB -> 3 min; Error() of 4.5 KiB of garbage -> 1.5 MiB of text in 5-7 s), which a wall-clock watchdog may only report as inconclusive; the scaling is recorded in the evidence (nested_comment_compile_wall_time_not_a_verdict) and reported to the lead",
 			"a store that violates its contract (nil *big.Int balances, nil account with nil error) is out of scope; store errors, missing entries and negative balances are in scope",
 			"loop `stateful`: the store answers every requested (account, asset) pair, with 0 for the pairs absent from the balance table, as the production store does; about one table in 18 omits the absent pairs instead and then falls under the rule for stores that omit requested balances (a panic is counted under panics_only_reachable_with_a_store_that_omits_requested_balances, never a verdict); the situation counters (stateful_*_with:*) only count executions over in-contract tables and rely on the generator's own description of the program for roles (source kind, kept, save, destination)",
-			"hang detection is a wall-clock watchdog (20 s per input, generous: typical inputs take < 5 ms) and only ever yields INCONCLUSIVE",
+			"hang detection is a wall-clock watchdog (60 s per input, generous: typical inputs take < 5 ms, the slowest of the envelope 2-8 s on an idle machine); an abandoned input is an inconclusive case (counted and listed in the evidence), more than 5 (quick) / 60 (thorough) of them make the run INCONCLUSIVE; it never yields a violation",
 			"Machine.Printer is replaced by a draining printer (the default one writes every `print` to stdout)",
 			"Machine.Postings after a failed Execute is treated as `returned result` because the brief says so (constant c27MachinePostingsRefutes); vm.Run's *Result is checked independently",
 		},
@@ -960,8 +963,15 @@ func runC27(r *core.Run) {
 			if len(txt) > 1500 {
 				txt = txt[:1500] + "...(truncated, full input in " + hung + ")"
 			}
-			r.Inconclusive(fmt.Sprintf("watchdog: %s[%d] (origin %s %v) did not return within %d s of wall clock; input: %q", c.Loop, c.Index, in.origin, in.kinds, c27WatchdogSeconds, txt))
+			// one abandoned input is an inconclusive CASE (counted, listed); the run as a whole only becomes
+			// inconclusive when more than a handful are abandoned (a loaded machine stretches the slowest
+			// deep-nesting inputs, 2-8 s alone, past any fixed deadline)
+			msg := fmt.Sprintf("watchdog: %s[%d] (origin %s %v) did not return within %d s of wall clock; input: %q", c.Loop, c.Index, in.origin, in.kinds, c27WatchdogSeconds, txt)
 			r.Count("watchdog_fired", 1)
+			r.Seen("inconclusive_cases_abandoned_by_the_watchdog", fmt.Sprintf("%s[%d] origin %s %v", c.Loop, c.Index, in.origin, in.kinds))
+			if n := atomic.AddInt64(&c27Abandoned, 1); n > int64(r.N(5, 60)) {
+				r.Inconclusive(msg)
+			}
 			slots <- slot
 		}
 	}
